@@ -77,7 +77,7 @@ Lemma continue_fuel_enough : forall c script stack ed,
   (steps_left (setup_env c script stack [] ed None) < continue_fuel (setup_env c script stack [] ed None))%nat.
 Proof.
   intros c script stack ed. unfold steps_left, continue_fuel. cbn [setup_env i_done i_pc i_p2sh i_p2shstack i_succ i_e e_script e_stack length].
-  destruct (match script with [] => true | _ :: _ => false end && true); [lia|].
+  match goal with |- context [if ?b then 0%nat else _] => destruct b end; [lia|].
   destruct (negb (script_too_big (c_sigver c) script) && (c_sigver c =? SV_BASE) && p2sh_shape (c_flags c) script).
   - destruct stack as [|s0 sr]; cbn [hd length]; lia.
   - destruct stack as [|s0 sr]; cbn [hd length]; lia.
